@@ -3,8 +3,10 @@
 // Oracle (history invariant, written from the property text, see runner_test.go):
 //   - Process(e) only while every parent of e is connected (the harness owns Exists/Get: an event is
 //     connected once Process returned nil for it, or once it was connected outside the buffer);
-//   - per pushed copy (own wrapper object, own peer string): at most one Process call, none after
-//     its Released;
+//   - per pushed copy (own wrapper object, own peer string): at most one Process call and at most one
+//     Check call (Check is the first step of handing a copy to processing), none after its Released;
+//   - the same with a buffer built WITHOUT a Released callback (Callback.Released == nil, a drawn
+//     dimension): the release-accounting clauses cannot be observed then, everything else is judged;
 //   - every pushed copy is reported released exactly once by every Clear (interleaved and final);
 //   - after every PushEvent the buffer holds (Total() and: copies pushed and not yet released) no
 //     more events and no more bytes than its limits;
@@ -40,6 +42,7 @@ type fataler interface {
 // orderStats accumulates what the orders of one (DAG, configuration) case exercised
 type orderStats struct {
 	orders, nontrivial, waits2, failDesc, spilled, live, dupWaiting, dupConnected int64
+	noReleased, failNested, failNestedNoReleased                                  int64
 }
 
 func (o *orderStats) add(r *runner) {
@@ -65,6 +68,15 @@ func (o *orderStats) add(r *runner) {
 	if r.dupConnected {
 		o.dupConnected++
 	}
+	if r.noReleased {
+		o.noReleased++
+	}
+	if r.failNested {
+		o.failNested++
+		if r.noReleased {
+			o.failNestedNoReleased++
+		}
+	}
 }
 
 func (o *orderStats) flush(st *stats.Collector) {
@@ -76,10 +88,13 @@ func (o *orderStats) flush(st *stats.Collector) {
 	st.Class("orders_liveness_clause_checked", o.live)
 	st.Class("orders_duplicate_of_waiting_event", o.dupWaiting)
 	st.Class("orders_duplicate_of_connected_event", o.dupConnected)
+	st.Class("orders_without_released_callback", o.noReleased)
+	st.Class("orders_failure_of_waiting_event_in_nested_cascade", o.failNested)
+	st.Class("orders_failure_of_waiting_event_in_nested_cascade_without_released_callback", o.failNestedNoReleased)
 }
 
 // allOrders runs every permutation of ops (Heap's algorithm) under the given limit classes.
-func allOrders(t fataler, w *world, ops []op, numClass, sizeClass int, acc *orderStats) {
+func allOrders(t fataler, w *world, ops []op, numClass, sizeClass int, noReleased bool, acc *orderStats) {
 	perm := append([]op(nil), ops...)
 	fails := anyFail(w.specs)
 	connects := hasConnect(ops)
@@ -91,7 +106,7 @@ func allOrders(t fataler, w *world, ops []op, numClass, sizeClass int, acc *orde
 		if !fails && !connects && int(limit.Num) >= m.peakNum && limit.Size >= m.peakSize {
 			live = &m
 		}
-		prev = runWith(prev, w, perm, limit, live)
+		prev = runWith(prev, w, perm, limit, live, noReleased)
 		if prev.viol != "" {
 			t.Fatalf("C14 violated: %s\n%s", prev.viol, prev.describe())
 		}
@@ -159,15 +174,19 @@ func TestC14Enum(t *testing.T) {
 	fullLimits := []limPair{{limAmple, limAmple}, {limExact, limExact}, {limExact, limAmple}, {limAmple, limExact},
 		{limBelow, limAmple}, {limAmple, limBelow}, {lim0, limAmple}, {lim1, limAmple}, {limAmple, lim0}, {limAmple, lim1}}
 	caseNo := 0
-	doCase := func(label string, n int, s uint64, specs []evSpec, ops []op, lp limPair) {
+	doCaseCb := func(label string, n int, s uint64, specs []evSpec, ops []op, lp limPair, noReleased bool) {
 		w := buildWorld(specs)
 		var acc orderStats
-		allOrders(t, w, ops, lp.num, lp.size, &acc)
+		allOrders(t, w, ops, lp.num, lp.size, noReleased, &acc)
 		acc.flush(stEnum)
 		stEnum.Case(stats.Hash("enum", n, s, label, lp.num, lp.size), acc.nontrivial > 0, "cases_"+label)
 		stEnum.Sample(func() interface{} {
-			return map[string]interface{}{"events": specs, "pushes": "all orders of " + fmt.Sprint(ops), "limit_num": limNames[lp.num], "limit_size": limNames[lp.size], "orders": acc.orders}
+			return map[string]interface{}{"events": specs, "pushes": "all orders of " + fmt.Sprint(ops), "limit_num": limNames[lp.num], "limit_size": limNames[lp.size], "orders": acc.orders,
+				"released_callback": !noReleased}
 		})
+	}
+	doCase := func(label string, n int, s uint64, specs []evSpec, ops []op, lp limPair) {
+		doCaseCb(label, n, s, specs, ops, lp, false)
 	}
 	run := func(n int, full bool) {
 		shapes := uint64(1) << uint(n*(n-1)/2)
@@ -209,6 +228,22 @@ func TestC14Enum(t *testing.T) {
 			}
 			if !full {
 				continue
+			}
+			// E: the buffer is built without a Released callback (Callback.Released == nil): nothing fails
+			// (ample and exact limits), each single event failing Process / Check (ample limits), and for
+			// n <= 4 one event pushed twice
+			for _, lp := range fullLimits[:2] {
+				doCaseCb("no_released_callback_no_failure", n, s, shapeSpecs(n, s, sizeMode), pushAll(n), lp, true)
+			}
+			for i := 0; i < n; i++ {
+				for _, mode := range []int{failProcess, failCheck} {
+					specs := shapeSpecs(n, s, sizeMode)
+					specs[i].Fail = mode
+					doCaseCb("no_released_callback_one_failing_event", n, s*100+uint64(i*10+mode), specs, pushAll(n), fullLimits[0], true)
+				}
+			}
+			for d := 0; d < n && n <= 4; d++ {
+				doCaseCb("no_released_callback_duplicate_push", n, s*100+uint64(d), shapeSpecs(n, s, sizeMode), append(pushAll(n), op{opPush, d}), fullLimits[1], true)
 			}
 			// C: one event names a parent that never exists
 			for i := 0; i < n; i++ {
@@ -268,6 +303,22 @@ func TestC14Regression(t *testing.T) {
 	if !r.nontrivial() {
 		t.Fatalf("harness: the regression history is not classified as non-trivial\n%s", r.describe())
 	}
+	if !r.failNested {
+		t.Fatalf("harness: the regression history is not classified as a failure inside a nested cascade\n%s", r.describe())
+	}
+	// the same history, failing in Check and in Process, with and without a Released callback
+	for _, mode := range []int{failProcess, failCheck} {
+		specs[2].Fail = mode
+		w := buildWorld(specs)
+		for _, r := range []*runner{run(w, ops, limitFor(limAmple, limAmple, &m, w, ops), nil), runNoReleased(w, ops, limitFor(limAmple, limAmple, &m, w, ops), nil)} {
+			if r.viol != "" {
+				t.Fatalf("C14 violated: %s\n%s", r.viol, r.describe())
+			}
+			if !r.nontrivial() || !r.failNested {
+				t.Fatalf("harness: the regression history is not classified as non-trivial / nested\n%s", r.describe())
+			}
+		}
+	}
 }
 
 // ---------------------------------------------------------------------------------------------
@@ -277,6 +328,26 @@ func genSpecs(t *rapid.T, n int, failing bool, missingOK bool) []evSpec {
 	specs := make([]evSpec, n)
 	missingOK = missingOK && rapid.IntRange(0, 2).Draw(t, "allowMissing") == 0
 	sizeMode := rapid.IntRange(0, 2).Draw(t, "sizeMode")
+	// failure placement: every event fails with probability 1/3, or (a third of the failing cases) exactly one
+	// event fails, one with >= 2 parents if there is any (everything around it is processed, so its own
+	// waiting / re-check path is what the case exercises)
+	singleFail := failing && rapid.IntRange(0, 2).Draw(t, "singleFailingEvent") == 0
+	defer func() {
+		if !singleFail {
+			return
+		}
+		var multi []int
+		for i := range specs {
+			if len(specs[i].Parents) >= 2 {
+				multi = append(multi, i)
+			}
+		}
+		if len(multi) == 0 {
+			multi = seqInts(n)
+		}
+		f := rapid.SampledFrom(multi).Draw(t, "failingEvent")
+		specs[f].Fail = rapid.SampledFrom([]int{failProcess, failProcess, failCheck, failProcessOnce, failCheckOnce}).Draw(t, "failMode")
+	}()
 	for i := 0; i < n; i++ {
 		k := 0
 		if i > 0 {
@@ -288,7 +359,20 @@ func genSpecs(t *rapid.T, n int, failing bool, missingOK bool) []evSpec {
 		seen := map[int]bool{}
 		for len(specs[i].Parents) < k {
 			var p int
-			if i > 3 && rapid.Bool().Draw(t, "recent") {
+			// triangle: a further parent that is itself a parent of an already chosen parent (self-parent plus
+			// another parent that descends from it): the child then completes inside the nested cascade of the
+			// younger parent while the cascade of the older one is still running
+			var grand []int
+			for _, q := range specs[i].Parents {
+				for _, g := range specs[q].Parents {
+					if !seen[g] {
+						grand = append(grand, g)
+					}
+				}
+			}
+			if len(grand) > 0 && rapid.IntRange(0, 2).Draw(t, "triangle") == 0 {
+				p = rapid.SampledFrom(grand).Draw(t, "parent")
+			} else if i > 3 && rapid.Bool().Draw(t, "recent") {
 				p = rapid.IntRange(i-3, i-1).Draw(t, "parent")
 			} else {
 				p = rapid.IntRange(0, i-1).Draw(t, "parent")
@@ -309,7 +393,7 @@ func genSpecs(t *rapid.T, n int, failing bool, missingOK bool) []evSpec {
 		default:
 			specs[i].Size = rapid.SampledFrom([]int{1, 2, 100, 1000}).Draw(t, "size")
 		}
-		if failing && rapid.IntRange(0, 2).Draw(t, "fails") == 0 {
+		if failing && !singleFail && rapid.IntRange(0, 2).Draw(t, "fails") == 0 {
 			specs[i].Fail = rapid.SampledFrom([]int{failProcess, failProcess, failCheck, failProcessOnce, failCheckOnce}).Draw(t, "failMode")
 		}
 		if missingOK && i > 0 && rapid.IntRange(0, 5).Draw(t, "missing") == 0 {
@@ -339,11 +423,21 @@ func TestC14Perms(t *testing.T) {
 		}
 		numClass := limClassGen.Draw(t, "numLimit")
 		sizeClass := limClassGen.Draw(t, "sizeLimit")
+		noReleased := rapid.IntRange(0, 3).Draw(t, "noReleasedCallback") == 0
 		w := buildWorld(specs)
 		var acc orderStats
-		allOrders(t, w, ops, numClass, sizeClass, &acc)
+		allOrders(t, w, ops, numClass, sizeClass, noReleased, &acc)
 		acc.flush(stPerms)
 		classes := []string{fmt.Sprintf("pushes_%d", nops), "num_limit_" + limNames[numClass], "size_limit_" + limNames[sizeClass]}
+		if noReleased {
+			classes = append(classes, "without_released_callback")
+		}
+		if acc.failNested > 0 {
+			classes = append(classes, "failure_of_waiting_event_in_nested_cascade")
+			if noReleased {
+				classes = append(classes, "failure_of_waiting_event_in_nested_cascade_without_released_callback")
+			}
+		}
 		if dups > 0 {
 			classes = append(classes, "with_duplicate_push")
 		}
@@ -359,9 +453,10 @@ func TestC14Perms(t *testing.T) {
 		if acc.live > 0 {
 			classes = append(classes, "liveness_clause_checked")
 		}
-		stPerms.Case(stats.Hash("perms", specs, ops, numClass, sizeClass), acc.nontrivial > 0, classes...)
+		stPerms.Case(stats.Hash("perms", specs, ops, numClass, sizeClass, noReleased), acc.nontrivial > 0, classes...)
 		stPerms.Sample(func() interface{} {
-			return map[string]interface{}{"events": specs, "pushes": "all orders of " + fmt.Sprint(ops), "limit_num": limNames[numClass], "limit_size": limNames[sizeClass], "orders": acc.orders}
+			return map[string]interface{}{"events": specs, "pushes": "all orders of " + fmt.Sprint(ops), "limit_num": limNames[numClass], "limit_size": limNames[sizeClass], "orders": acc.orders,
+				"released_callback": !noReleased}
 		})
 	})
 }
@@ -418,6 +513,8 @@ func TestC14Random(t *testing.T) {
 		}
 		numClass := limClassGen.Draw(t, "numLimit")
 		sizeClass := limClassGen.Draw(t, "sizeLimit")
+		// a quarter of the histories run against a buffer built without a Released callback
+		noReleased := rapid.IntRange(0, 3).Draw(t, "noReleasedCallback") == 0
 
 		w := buildWorld(specs)
 		m := runModel(w, ops)
@@ -426,7 +523,7 @@ func TestC14Random(t *testing.T) {
 		if !anyFail(specs) && !m.connects && int(limit.Num) >= m.peakNum && limit.Size >= m.peakSize {
 			live = &m
 		}
-		r := run(w, ops, limit, live)
+		r := runWith(nil, w, ops, limit, live, noReleased)
 		if r.viol != "" {
 			t.Fatalf("C14 violated: %s\n%s", r.viol, r.describe())
 		}
@@ -445,15 +542,19 @@ func TestC14Random(t *testing.T) {
 		add(r.dupConnected, "duplicate_of_connected_event")
 		add(r.extConnected, "connected_outside_buffer")
 		add(clears > 0, "interleaved_clear")
+		add(noReleased, "without_released_callback")
+		add(r.failNested, "failure_of_waiting_event_in_nested_cascade")
+		add(r.failNested && noReleased, "failure_of_waiting_event_in_nested_cascade_without_released_callback")
+		add(r.failed && noReleased, "callback_failed_without_released_callback")
 		for _, s := range specs {
 			if s.Missing {
 				add(true, "with_missing_parent")
 				break
 			}
 		}
-		stRandom.Case(stats.Hash("random", specs, ops, limit.Num, limit.Size), r.nontrivial(), classes...)
+		stRandom.Case(stats.Hash("random", specs, ops, limit.Num, limit.Size, noReleased), r.nontrivial(), classes...)
 		stRandom.Sample(func() interface{} {
-			return map[string]interface{}{"events": specs, "ops": ops, "limit": limit.String()}
+			return map[string]interface{}{"events": specs, "ops": ops, "limit": limit.String(), "released_callback": !noReleased}
 		})
 	})
 }
